@@ -3077,3 +3077,8 @@ mod tests {
         assert_eq!(clone.peek(&2), Some(&3));
     }
 }
+
+#[cfg(feature = "verif-hooks")]
+mod verif;
+#[cfg(feature = "verif-hooks")]
+pub use verif::VerifAudit;
